@@ -426,7 +426,7 @@ func (w *world) fail(r *reader, wi int, kind, format string, a ...any) {
 			return // one example per signature and case
 		}
 	}
-	w.fails = append(w.fails, Fail{Sig: sig, Msg: fmt.Sprintf(format, a...), Reader: rid, WIdx: wi, Seg: seg, Hang: strings.Contains(kind, "hang") || strings.Contains(kind, "never-arrived")})
+	w.fails = append(w.fails, Fail{Sig: sig, Msg: fmt.Sprintf(format, a...), Reader: rid, WIdx: wi, Seg: seg, Hang: (r != nil && r.timedOut) || strings.Contains(kind, "hang") || strings.Contains(kind, "never-arrived")})
 }
 
 var tlsCert *tls.Certificate
